@@ -295,6 +295,9 @@ def state_list(tier):
     for h in explorer.enumerate_histories("mini", 1, THIN):
         if h[-1][0] != "reopen":
             states.append({"seed": "mini", "ops": h})
+    for sd in ("mini", "rich", "mini+dims9"):
+        for emptied in (False, True):
+            states.append({"seed": sd, "ops": [], "held": True, "emptied": emptied})
     if tier == "thorough":
         states.append({"seed": "light", "ops": []})
         for h in explorer.enumerate_histories("mini", 2, THIN, follow=explorer.same_entity_or_reopen):
@@ -362,7 +365,126 @@ def probe_after_refusals(r, s, case):
                "after the refused calls a valid attribute change raises %s: %s" % (type(e).__name__, str(e)[:120]), {"state": case})
 
 
+def run_held(case):
+    """Every refused call of the fault list is made through ONE long-lived set of handles (obtained before the first
+    call, their member lists already used; with "emptied": after the last feature, reference, member and descriptor were
+    removed through them).  After all refusals the file is what it was, and valid calls through the same handles take
+    effect and show through them exactly as through fresh handles ("the rejected name remains available for a later
+    valid call" - for the caller who still holds the entity)."""
+    r = R()
+    s = build_state(case)
+    try:
+        def touch(c):
+            for e, lists in ((c.tag, ("features", "references", "sources")), (c.mtag, ("features", "references", "sources")),
+                             (c.grp, ("data_arrays", "tags", "multi_tags", "sources")), (c.da, ("dimensions", "sources")),
+                             (c.b, ("data_arrays", "tags", "multi_tags", "groups", "sources", "data_frames")),
+                             (c.src, ("sources",)), (c.sec, ("props", "sections"))):
+                if e is not None:
+                    for ln in lists:
+                        len(getattr(e, ln))
+
+        def prepare(s_):
+            c = Ctx(s_.f)
+            if case.get("emptied"):
+                for e in (c.tag, c.mtag):
+                    if e is not None:
+                        while len(e.features):
+                            del e.features[0]
+                        while len(e.references):
+                            del e.references[0]
+                if c.grp is not None:
+                    while len(c.grp.data_arrays):
+                        del c.grp.data_arrays[0]
+                if c.da is not None:
+                    c.da.delete_dimensions()
+                c.dim = c.rdim = c.feat = None
+            touch(c)
+            w, d = snapshot(s_)
+            return c, w, d
+        ctx, w0, d0 = prepare(s)
+        r.states.add(jhash(walker.canon(w0)))
+        for fa in FAULTS:
+            if any(getattr(ctx, n) is None for n in fa["needs"]):
+                continue
+            env.CLOCK.advance(7)
+            try:
+                fa["fn"](ctx)
+                exc = None
+            except LookupError as e:
+                if str(e).strip("'\"") == "skip":
+                    continue
+                exc = e
+            except Exception as e:  # noqa
+                exc = e
+            r.evals += 1
+            r.transitions += 1
+            if exc is None:
+                # accepted calls are the business of the per-state cases; start again from a clean state
+                r.bump("accepted_calls")
+                s.close()
+                s = build_state(case)
+                ctx, w0, d0 = prepare(s)
+                continue
+            r.nontrivial += 1
+            r.outcomes.add("refused:" + type(exc).__name__)
+        w1, d1 = snapshot(s)
+        if w1 != w0:
+            r.viol("C12|held-handles|after-all-refusals|walk-changed:%s" % ",".join(walker.diff_keys(w0, w1)[:2])[:120],
+                   "after the refused calls through long-lived handles the observable state changed: %s" % "; ".join(walker.diff(w0, w1, limit=3)), {"state": case})
+            return r
+        # valid calls through the same handles
+        steps = []
+        if ctx.tag is not None and ctx.da is not None:
+            steps += [("Tag.create_feature", lambda: ctx.tag.create_feature(ctx.da, nix.LinkType.Untagged)),
+                      ("Tag.references.append", lambda: ctx.tag.references.append(ctx.da))]
+        if ctx.mtag is not None and ctx.da is not None:
+            steps += [("MultiTag.create_feature", lambda: ctx.mtag.create_feature(ctx.da, nix.LinkType.Untagged)),
+                      ("MultiTag.references.append", lambda: ctx.mtag.references.append(ctx.da))]
+        if ctx.da is not None:
+            steps += [("DataArray.append_set_dimension", lambda: ctx.da.append_set_dimension(["held"])),
+                      ("DataArray.append_sampled_dimension", lambda: ctx.da.append_sampled_dimension(0.5))]
+        if ctx.grp is not None and ctx.da is not None:
+            steps += [("Group.data_arrays.append", lambda: ctx.grp.data_arrays.append(ctx.da))]
+        if ctx.b is not None:
+            steps += [("Block.create_data_array", lambda: ctx.b.create_data_array("held-new", "t", data=np.array([1.0]))),
+                      ("Block.create_tag", lambda: ctx.b.create_tag("held-tag", "t", [0.0])),
+                      ("Block.create_group", lambda: ctx.b.create_group("held-grp", "t"))]
+        if ctx.sec is not None:
+            steps += [("Section.create_property", lambda: ctx.sec.create_property("held-prop", [1])),
+                      ("Section.create_section", lambda: ctx.sec.create_section("held-sec", "t"))]
+        if ctx.src is not None:
+            steps += [("Source.create_source", lambda: ctx.src.create_source("held-src", "t"))]
+        for site, fn in steps:
+            r.evals += 1
+            r.transitions += 1
+            try:
+                fn()
+            except Exception as e:  # noqa
+                r.viol("C12|held-handles|%s|valid-call-after-refusals-raises-%s" % (site, type(e).__name__),
+                       "after the refused calls a valid %s through the long-lived handle raises %s: %s" % (site, type(e).__name__, str(e)[:120]), {"state": case})
+                return r
+        fresh = Ctx(s.f)
+        for nm in ("b", "da", "tag", "mtag", "grp", "src", "sec"):
+            h, g = getattr(ctx, nm), getattr(fresh, nm)
+            if h is None or g is None:
+                continue
+            r.evals += 1
+            a, b_ = walker.canon(walker.walk_obj(h)), walker.canon(walker.walk_obj(g))
+            if a != b_:
+                r.viol("C12|held-handles|%s|differs-from-fresh-handle:%s" % (type(h).__name__, ",".join(walker.diff_keys(b_, a)[:2])[:100]),
+                       "after refused and then valid calls the long-lived %s handle shows another state than a fresh one: %s" % (
+                           type(h).__name__, "; ".join(walker.diff(b_, a, limit=3))), {"state": case})
+                return r
+        r.traces = 1
+        return r
+    finally:
+        s.close()
+
+
+
 def run_case(case):
+    if case.get("held"):
+        return run_held(case)
     r = R()
     s = build_state(case)
     try:
